@@ -8,7 +8,6 @@ import (
 	"github.com/samber/lo"
 	corev1 "k8s.io/api/core/v1"
 	metav1 "k8s.io/apimachinery/pkg/apis/meta/v1"
-	"k8s.io/apimachinery/pkg/util/sets"
 
 	v1 "sigs.k8s.io/karpenter/pkg/apis/v1"
 	"sigs.k8s.io/karpenter/pkg/cloudprovider"
@@ -271,7 +270,7 @@ func priceKey(it *cloudprovider.InstanceType, rq scheduling.Requirements) (float
 	return best, ok
 }
 
-func allowList() string { return kit.GStrs(sets.List(v1.WellKnownLabels)) }
+func allowList() string { return "wk" }
 
 // ------------------------------------------------------------------ part P: OrderByPrice / Truncate / SatisfiesMinValues
 
@@ -291,7 +290,7 @@ type pCase struct {
 
 func gSmv(n int, unsat map[string]int, err error) string {
 	ks := kit.SortedKeys(unsat)
-	return fmt.Sprintf("(%d%%nat, %s, %s)", n, kit.GListOf(ks, func(k string) string { return kit.GPair(kit.GStr(k), kit.GZ(int64(unsat[k]))) }), kit.GBool(err != nil))
+	return fmt.Sprintf("(%d%%nat, %s, %s)", n, kit.GListOf(ks, func(k string) string { return kit.GPair(gS(k), kit.GZ(int64(unsat[k]))) }), kit.GBool(err != nil))
 }
 
 func runPrice(c *kit.Ctx, r *kit.Rand, its cloudprovider.InstanceTypes, rq scheduling.Requirements, n int, bestEffort bool, kind string) {
@@ -346,7 +345,7 @@ func runPrice(c *kit.Ctx, r *kit.Rand, its cloudprovider.InstanceTypes, rq sched
 }
 
 func partPrice(c *kit.Ctx) {
-	nRand := 700
+	nRand := 500
 	if c.Thorough() {
 		nRand = 7000
 	}
@@ -402,7 +401,7 @@ func emitToNodeClaim(c *kit.Ctx, kind string, gRq string, jRq []jReq, gIn string
 }
 
 func partToNodeClaim(c *kit.Ctx) {
-	nRand := 300
+	nRand := 200
 	if c.Thorough() {
 		nRand = 3000
 	}
